@@ -140,7 +140,7 @@ class FakeTime(types.ModuleType):
 
 
 def run_driver(nranks, cwd, tEnd, saveStep, folder=None, const_file=None, stop_after=None, seed=0,
-               init_linear=True):
+               init_linear=True, stub=True, timeout=300.0):
     """one invocation of the real fullSimulation.main() on `nranks` simulated ranks in directory cwd.
     returns dict(outcome, detail)"""
     from mpi4py import MPI
@@ -179,14 +179,15 @@ def run_driver(nranks, cwd, tEnd, saveStep, folder=None, const_file=None, stop_a
         lin = ((gi[0] * npts[1] + gi[1]) * npts[2] + gi[2]) * npts[3] + gi[3]
         grid._f[:] = (lin * 17 + 5) % M
 
-    patch(adv, 'FluxSurfaceAdvection', CountingFlux)
-    patch(adv, 'VParallelAdvection', StubVPar)
-    patch(adv, 'PoloidalAdvection', StubPol)
-    patch(adv, 'ParallelGradient', StubParGrad)
-    patch(ps, 'DensityFinder', StubDensity)
-    patch(ps, 'QuasiNeutralitySolver', StubQN)
-    if init_linear:
-        patch(setups, 'initialise_v_parallel', init_v_parallel)
+    if stub:
+        patch(adv, 'FluxSurfaceAdvection', CountingFlux)
+        patch(adv, 'VParallelAdvection', StubVPar)
+        patch(adv, 'PoloidalAdvection', StubPol)
+        patch(adv, 'ParallelGradient', StubParGrad)
+        patch(ps, 'DensityFinder', StubDensity)
+        patch(ps, 'QuasiNeutralitySolver', StubQN)
+        if init_linear:
+            patch(setups, 'initialise_v_parallel', init_v_parallel)
     real_time_mod = sys.modules['time']
     argv = ['fullSimulation.py', str(tEnd), str(TMAX), '-s', str(saveStep)]
     if folder is not None:
@@ -204,9 +205,10 @@ def run_driver(nranks, cwd, tEnd, saveStep, folder=None, const_file=None, stop_a
     try:
         sys.argv = argv
         os.chdir(cwd)
-        sys.modules['time'] = fake
+        if stub:
+            sys.modules['time'] = fake
         sys.stdout = open(os.devnull, 'w')
-        R = MPI.run(nranks, work, seed=seed, timeout=300.0)
+        R = MPI.run(nranks, work, seed=seed, timeout=timeout)
     finally:
         sys.stdout.close()
         sys.stdout = old_stdout
